@@ -620,7 +620,7 @@ class Tr:
         if c in ('true', 'false'): return c, 'bool'
         if c.endswith('consts::PI'): return '(Flt.pi)', 'f64'
         if c == 'u8::MAX': return '(255 : Nat)', 'u8'
-        if c in ('f64::EPSILON', 'std::f64::EPSILON', 'core::f64::EPSILON'):      # 2^-52, exactly representable
+        if re.match(r'^(?:(?:std|core)::)?f64::(?:<impl f64>::)?EPSILON$', c):      # 2^-52, exactly representable
             return f'(Flt.lit 0x3CB0000000000000 1 {2**52})', 'f64'
         pm = re.search(r'::promoted\[(\d+)\]$', c)
         if pm:
